@@ -1014,16 +1014,34 @@ def ku_then_write(conn, data):
         yield r
 
 
-def read_until(conn, n, out):
-    """generator: readAsync repeatedly until n bytes arrived or the peer closed"""
+def read_until(conn, n, out, seed=None):
+    """generator: readAsync repeatedly until n bytes arrived or the peer closed; the max/min
+    arguments vary with `seed` (the concatenated data must not depend on them)"""
+    import random
+    rng = random.Random(seed) if seed is not None else None
     while len(out) < n:
+        mx, mn = None, 1
+        if rng is not None:
+            mx = rng.choice([None, None, 1, 7, 100, 16384, 20000])
+            mn = min(rng.choice([1, 1, 1, 2, 50, 600]), n - len(out))
+            if mx is not None:
+                mn = min(mn, mx)
         r = None
-        for r in conn.readAsync(max=None, min=1):
+        for r in conn.readAsync(max=mx, min=mn):
             if isinstance(r, int) and r in (0, 1):
                 yield r
         if not r:
             return
         out += r
+
+
+def hb_then_write(conn, data):
+    """client side of the heartbeat scenarios: a heartbeat request, then data; the peer's READ
+    operation has to answer the request (a read that writes)"""
+    for r in conn.write_heartbeat(b"c14-ping", 16):
+        yield r
+    for r in conn.writeAsync(data):
+        yield r
 
 
 _SRP_DB = {}
@@ -1059,6 +1077,12 @@ def scenario_list(thorough):
     add("tls13-ffdhe", ver=(3, 4), groups=["ffdhe2048"])
     add("tls13-hrr", ver=(3, 4), hrr=True)
     add("tls13-chacha", ver=(3, 4), ciphers=["chacha20-poly1305"])
+    add("heartbeat-3.3", ver=(3, 3), kx=["ecdhe_rsa"], hb=True)
+    add("heartbeat-tls13", ver=(3, 4), hb=True)
+    add("closewait-3.3", ver=(3, 3), kx=["rsa"], close_wait=True)
+    add("closewait-tls13", ver=(3, 4), close_wait=True, ticket_keys=True)
+    add("smallrecords-tls13", ver=(3, 4), rsl=64, d1=2000, d2=1500)
+    add("smallrecords-3.3", ver=(3, 3), kx=["ecdhe_rsa"], rsl=70, d1=2000, d2=1500)
     add("tls13-keyupdate", ver=(3, 4), ku=True)
     add("tls13-keyupdate-aes256", ver=(3, 4), ku=True, ciphers=["aes256gcm"], d1=3000, d2=2000)
     add("clientauth-3.1", ver=(3, 1), kx=["rsa"], client_cert="client_rsa")
@@ -1077,6 +1101,9 @@ def scenario_list(thorough):
     add("bigdata-tls13", ver=(3, 4), d1=40000, d2=20000)
     add("bigdata-3.0", ver=(3, 0), kx=["rsa"], ciphers=["aes128"], d1=33000, d2=100)
     return S
+
+
+_HB = []      # heartbeat responses seen by the client of the conversation being played
 
 
 def mk_settings(scn, role):
@@ -1111,6 +1138,10 @@ def mk_settings(scn, role):
         s.keyShares = []
     if scn.get("ticket_keys") and role == "server":
         s.ticketKeys = [bytearray(range(32))]
+    if scn.get("rsl"):
+        s.record_size_limit = scn["rsl"]
+    if scn.get("hb") and role == "client":
+        s.heartbeat_response_callback = lambda msg: _HB.append(bytes(msg.payload))
     return s
 
 
@@ -1212,20 +1243,27 @@ def play_generators(scn, spec, pin, order_seed=None, refilter=None):
         o = {"hs_client": end_state(L.client), "hs_server": end_state(L.server)}
         if L.client.state == "done" and L.server.state == "done":
             got1, got2 = bytearray(), bytearray()
-            L.client.start(L.client.conn.writeAsync(d1))
-            L.server.start(read_until(L.server.conn, len(d1), got1))
+            rs = None if order_seed is None else order_seed + 17 * round_no
+            del _HB[:]
+            if scn.get("close_wait"):
+                L.client.conn.closeSocket = False
+                L.server.conn.closeSocket = False
+            L.client.start(hb_then_write(L.client.conn, d1) if scn.get("hb") else L.client.conn.writeAsync(d1))
+            L.server.start(read_until(L.server.conn, len(d1), got1, rs))
             run_gens(L, pin, rng)
             o["w1"] = end_state(L.client)
             o["r1"] = end_state(L.server)
             L.server.start(ku_then_write(L.server.conn, d2) if scn.get("ku") else L.server.conn.writeAsync(d2))
-            L.client.start(read_until(L.client.conn, len(d2), got2))
+            L.client.start(read_until(L.client.conn, len(d2), got2, None if rs is None else rs + 1))
             run_gens(L, pin, rng)
             o["w2"] = end_state(L.server)
             o["r2"] = end_state(L.client)
+            if scn.get("hb"):
+                o["heartbeat_responses"] = [x.hex() for x in _HB]
             if scn.get("ku"):
                 got3 = bytearray()
                 L.client.start(L.client.conn.writeAsync(d3))
-                L.server.start(read_until(L.server.conn, len(d3), got3))
+                L.server.start(read_until(L.server.conn, len(d3), got3, None if rs is None else rs + 2))
                 run_gens(L, pin, rng)
                 o["w3"] = end_state(L.client)
                 o["r3"] = end_state(L.server)
